@@ -12,7 +12,7 @@ RULE = ("seeded random block structures (depth <=4, <=7 statements per block) ov
         "branches), for (with header declaration), while, do; names drawn from the visible, the out-of-scope and fresh names at every position; "
         "1-2 functions per module, 0-2 globals. Non-trivial: at least two declarations and one nested scope; distinct = distinct skeleton")
 EXHAUSTIVE = {"quick": False, "thorough": False}
-ASSUMPTIONS = ["the two un-braced branches of one `if` belong to the scope of that `if` (DESIGN.md §7); generated branches that declare are braced",
+ASSUMPTIONS = ["the two un-braced branches of one `if` belong to the scope of that `if` (DESIGN.md §7); un-braced declarations are generated as if/for/while bodies",
                "run-time binding (which storage a use reads) is covered by the theorems about the model (flat_refines_lexical, uses_resolve); "
                "this check ties the model to the code on acceptance and on visibility only"]
 TRUSTED = ["Nsl/Model/Names.lean mirrors ValidateVariableNamesVisitor (context chain, which nodes open a context)"]
@@ -36,15 +36,29 @@ def gen_stmt(rng, depth, visible, dead):
     if r < 0.67: return ("B", gen_block(rng, depth - 1, set(visible), dead))
     if r < 0.80:
         def branch():
-            if rng.random() < 0.6: return ("B", gen_block(rng, depth - 1, set(visible), dead))
+            k = rng.random()
+            if k < 0.6: return ("B", gen_block(rng, depth - 1, set(visible), dead))
+            if k < 0.75:      # an un-braced declaration as a branch: visible only inside the `if`
+                n = rng.choice([x for x in POOL if x not in visible] or POOL); dead.add(n)
+                return ("D", n)
             return ("U", rng.choice(sorted(visible) or ["p0"]))
         return ("I", branch(), branch())
     if r < 0.90:
         h = rng.choice([n for n in ("i", "j", "c", "d") if n not in visible] * 6 + sorted(visible)[:1] or ["i"])
-        body = ("B", gen_block(rng, depth - 1, set(visible) | {h}, dead)) if rng.random() < 0.75 else ("U", rng.choice(sorted(visible | {h})))
+        k = rng.random()
+        if k < 0.7: body = ("B", gen_block(rng, depth - 1, set(visible) | {h}, dead))
+        elif k < 0.8:
+            n = rng.choice([x for x in POOL if x not in visible and x != h] or POOL); dead.add(n)
+            body = ("D", n)
+        else: body = ("U", rng.choice(sorted(visible | {h})))
         return ("F", h, body)
     if r < 0.95:
-        body = ("B", gen_block(rng, depth - 1, set(visible), dead)) if rng.random() < 0.75 else ("U", rng.choice(sorted(visible) or ["p0"]))
+        k = rng.random()
+        if k < 0.7: body = ("B", gen_block(rng, depth - 1, set(visible), dead))
+        elif k < 0.8:
+            n = rng.choice([x for x in POOL if x not in visible] or POOL); dead.add(n)
+            body = ("D", n)
+        else: body = ("U", rng.choice(sorted(visible) or ["p0"]))
         return ("W", body)
     return ("O", ("B", gen_block(rng, depth - 1, set(visible), dead)))
 
